@@ -465,8 +465,11 @@ func (e *EdgeQuery) findEdgesInternal(target distanceTarget, opts *queryOptions)
 	// distanceLimit < maxError, this reduces the distance limit to 0,
 	// i.e. all remaining candidate cells and edges can safely be discarded.
 	// (This is how IsDistanceLess() and friends are implemented.)
-	targetUsesMaxError := opts.maxError != target.distance().zero().chordAngle() &&
-		e.target.setMaxError(opts.maxError)
+	// Always hand the current maxError to the target (also when it is zero):
+	// a target that served an earlier call with a non-zero maxError, e.g.
+	// IsDistanceLess, would otherwise keep using it.
+	targetTakesMaxError := e.target.setMaxError(opts.maxError)
+	targetUsesMaxError := opts.maxError != target.distance().zero().chordAngle() && targetTakesMaxError
 
 	// Note that we can't compare maxError and distanceLimit directly
 	// because one is a Delta and one is a Distance. Instead we subtract them.
